@@ -385,6 +385,10 @@ def run(prog, rep, tier):
     isin_over_sets(rep, prog, [U + n_ for n_ in ("pa", "ch", "neighbors", "adj", "na", "ancestors", "descendants", "desc", "semi_directed_paths", "separates",
                                                  "chain_component", "transitive_closure")])
     chain_component_rules(rep, prog)
+    # every query leaves the graph (and the node sets) it is given as they were: Kahn's algorithm behind transitive_closure, a
+    # visited-set kept in the caller's S
+    from .common import inputs_intact
+    inputs_intact(rep, prog, [U + n_ for n_ in ("transitive_closure", "separates", "semi_directed_paths", "chain_component", "ancestors", "descendants")])
     # zero-pattern dependence of the whole family (the DAG gate's own value sensitivity belongs to C03)
     entries = [(U + n, {"na": "A", "separates": "G", "chain_component": "G"}.get(n, "A")) for n in
                ("pa", "ch", "neighbors", "adj", "na", "ancestors", "descendants", "an", "desc", "semi_directed_paths",
